@@ -337,7 +337,9 @@ func DisplayLine(l *Line, indent int) {
 
 		// Clear everything after each line, except the last.
 		if num < len(lines)-1 {
-			if len(line)+indent < term.GetWidth() {
+			// Unless the line ends exactly on the last column: the cursor
+			// would still be on it, and its last character erased.
+			if endX, _ := strutil.LineSpan([]rune(lines[num]), num, indent); endX != 0 {
 				line += term.ClearLineAfter
 			}
 
